@@ -702,6 +702,14 @@ func (w *Worker) doTaskAttempt(
 		case RecordFlagNack:
 			err := acker.Nack(ctx, subBatch, t.ID())
 			if err != nil {
+				if _, ok := t.(*ProcessorTask); ok {
+					// A processor error that the DLQ did not absorb is fatal,
+					// same as in the default engine (stream.ProcessorNode).
+					// Processors are deterministic, so recovering would lead
+					// to an endless loop of restarts: the source re-reads the
+					// same record and the processor fails on it again.
+					return cerrors.FatalError(cerrors.Errorf("error executing processor: %w", err))
+				}
 				return err
 			}
 		case RecordFlagRetry:
